@@ -23,7 +23,7 @@ RULE = ('corpus (F6-F9 witnesses, empty-window witnesses) first; exhaustive box:
         'a FEATURE-LIST history stream (a small history language interpreted by the real objects and by run_C06f): lookups by type name '
         '(seq[name], seq.sl(..)[name], BioBasket(objs)[name] / [:, name] / [i, name], fts.get(name | names), fts.select(name | names), indexing with a '
         'Feature taken from the list) interleaved with in-place edits of the SAME FeatureList object (sort with keys None / len / tuples and reverse=, '
-        'reverse, item assignment, swap, insert, append, extend / +=, pop / del, remove, clear, changing the type or the locations of a feature) and of '
+        'reverse, item assignment, swap, insert, append, extend / +=, pop / del, remove, clear, seq.add_fts, changing the type or the locations of a feature) and of '
         'the sequence (rc with / without features, basket rc, reverse, complement, item assignment, fts re-assigned) on 1-3 objects of equal length with '
         'the same type names (same features shuffled / same number of features); patterns: lookup - length-preserving edit - same lookup; the same '
         'lookup on every object around an edit of one; number of features going and coming back; every object observed after every step; '
@@ -68,7 +68,7 @@ ASSUMPTIONS = ['Python str restricted to ASCII; sequences over the 17-symbol IUP
 MODELLED_FUNCS = {
     'sugar/core/seq.py': ['BioSeq._getitem', 'BioSeq._slice_locs', 'BioSeq.rc', 'BioSeq.__getitem__', 'BioSeq.sl', 'BioSeq.__setitem__',
                           '_Sliceable_GetItem.__init__', '_Sliceable_GetItem.__getitem__',
-                          'BioBasket._getitem', 'BioBasket.__getitem__', 'BioBasket.sl', 'BioBasket.rc'],
+                          'BioBasket._getitem', 'BioBasket.__getitem__', 'BioBasket.sl', 'BioBasket.rc', 'BioSeq.add_fts'],
     'sugar/core/fts.py': ['FeatureList.slice', 'FeatureList.rc', 'FeatureList.get', 'FeatureList.select', 'FeatureList.sort',
                           'Feature.__lt__', 'Feature.__eq__', 'Feature.__len__', 'LocationTuple.__lt__', 'Location.__eq__',
                           'Feature.rc', 'Feature.__init__',
@@ -481,8 +481,10 @@ def _fhist(rng):
             e = {'k': 'extend', 'fs': [mkft() for _ in range(rng.randint(0, 2))], 'via': rng.choice(['extend', 'iadd', 'iadd_fl', 'iadd_attr'])}
         elif r < 0.75:
             e = {'k': 'pop', 'i': rng.randint(-5, 4), 'via': rng.choice(['pop', 'del'])}
-        elif r < 0.95:
+        elif r < 0.85:
             e = {'k': 'remove', 'i': rng.randint(-4, 4)}
+        elif r < 0.95:
+            e = {'k': 'addfts', 'fs': [mkft() for _ in range(rng.randint(0, 2))], 'via': rng.choice(['list', 'fl'])}
         else:
             e = {'k': 'clear'}
         return {'obj': obj, 'op': 'edit', 'e': e}
@@ -937,9 +939,12 @@ def _do_fedit(seq, e):
         fts[i], fts[j] = fts[j], fts[i]
     elif k == 'clear':
         fts.clear()
+    elif k == 'addfts':
+        new = [_mkft(f) for f in e['fs']]
+        seq.add_fts(FeatureList(new) if e.get('via') == 'fl' else new)
     else:
         raise ValueError(k)
-    if e.get('via') != 'iadd_attr':
+    if e.get('via') != 'iadd_attr' and k != 'addfts':
         assert seq.fts is fts, 'the feature list object was replaced'
     return val
 
@@ -1190,6 +1195,8 @@ def _fedit_term(e):
         return '(ESwap %s %s)%%Z' % (_z(e['i']), _z(e['j']))
     if k == 'clear':
         return 'EClear'
+    if k == 'addfts':
+        return '(EAddFts %s)' % _fts_term(e['fs'])
     raise ValueError(k)
 
 
@@ -1505,6 +1512,9 @@ def _spec_edit(fts, e, val):
             new[i], new[j] = new[j], new[i]
     elif k == 'clear':
         new = []
+    elif k == 'addfts':                      # the new features join the list, the whole list is put in position order (stable)
+        new = new + _canon_raw(e['fs'])
+        new = [ft for kv in sorted(set(_ft_range(ft) for ft in new)) for ft in new if _ft_range(ft) == kv]
     if val != want:
         return 'edit %s: expected %r, got %r' % (k, want, val), new
     return None, new
@@ -1777,6 +1787,8 @@ def _valid_fstep(st, nobj):
             return _valid_fts([e['f']]) and (k == 'append' or 'i' in e)
         if k == 'extend':
             return _valid_fts(e['fs']) and e.get('via') in (None, 'extend', 'iadd', 'iadd_fl', 'iadd_attr')
+        if k == 'addfts':
+            return _valid_fts(e['fs']) and e.get('via') in (None, 'list', 'fl')
         if k in ('pop', 'remove'):
             return 'i' in e
         if k == 'settype':
@@ -1901,7 +1913,7 @@ def extra_checks(rng, tier, cov):
                              'sequence length <= %d' % (5 if tier == 'thorough' else 3))
 
 
-LEVEL_TEXT = ('Machine-checked Coq theorems (59, no axioms) about an executable model of BioSeq._getitem/_slice_locs/rc(update_fts) and '
+LEVEL_TEXT = ('Machine-checked Coq theorems (61, no axioms) about an executable model of BioSeq._getitem/_slice_locs/rc(update_fts) and '
               'FeatureList.slice/rc: extraction by Location/Feature/type name is the 5\'->3\' concatenation of the (reverse-complemented) pieces '
               'with filler/splitter (filler pads ascending plus-strand locations to the range length); under update_fts every surviving location '
               'addresses the same residues inside the window (int, every slice window, Location / single-location Feature windows on both strands), '
@@ -1919,7 +1931,7 @@ LEVEL_TEXT = ('Machine-checked Coq theorems (59, no axioms) about an executable 
               'the head of fts.select, select the sub-list of matching features (C06_get_head_select); the type-name lookup after item assignment / '
               'delete / append / reverse / insert from the pieces of the list before the edit (C06_get_after_edit, C06_get_after_insert); after sort() it '
               'is the matching feature at the smallest position, the earliest of those before the sort (C06_get_after_sort); list_set / list_del / '
-              'negative indices / remove (C06_list_edit_spec, C06_norm_idx_spec, C06_remove_first_spec); lookups leave no trace: the answers to any '
+              'negative indices / remove (C06_list_edit_spec, C06_norm_idx_spec, C06_remove_first_spec); sort twice = once, seq.add_fts = stable position sort of old ++ new (C06_sort_idempotent_add_fts); which edits re-order / keep / change the number of features (C06_fedit_shape); lookups leave no trace: the answers to any '
               'continuation of a history are the same with every earlier lookup removed (C06_history_lookups_transparent). '
               'The model is tied to sugar by differential testing on every run (exhaustive small box, random, gap stream, state-independence histories, '
               'feature-list histories on 1-3 objects).')
